@@ -490,6 +490,9 @@ func build(tier string) []explore.Scenario {
 	add(cfg{name: "destroy-ready-id/rmfin-teardown", inputs: []inSpec{{tInt, "a", dr}}, pre: []wop{"createfin a"}, script: []wop{"rmfin a", "teardown a"}, prologue: true, bounds: b1})
 	add(cfg{name: "weak-id-a+destroy-ready-id-b/update-a", inputs: []inSpec{{tInt, "a", w}, {tInt, "b", dr}}, pre: []wop{"create a", "create b"}, script: []wop{"update a", "update a"}, prologue: true, bounds: b0})
 	add(cfg{name: "weak-kind+destroy-ready-id-b/update-a", inputs: []inSpec{{tInt, "", w}, {tInt, "b", dr}}, pre: []wop{"create a", "create b"}, script: []wop{"update a"}, prologue: true, bounds: b0})
+	add(cfg{name: "weak-kind+destroy-ready-id-b/update-b", inputs: []inSpec{{tInt, "", w}, {tInt, "b", dr}}, pre: []wop{"create a", "create b"}, script: []wop{"update b", "update a", "update b"}, prologue: true, bounds: b0})
+	add(cfg{name: "strong-kind+destroy-ready-id-b/label-b", inputs: []inSpec{{tInt, "", s}, {tInt, "b", dr}}, pre: []wop{"create b"}, script: []wop{"label b", "create a"}, prologue: true, bounds: b0})
+	add(cfg{name: "destroy-ready-kind+weak-id-b/update-b", inputs: []inSpec{{tInt, "", dr}, {tInt, "b", w}}, pre: []wop{"create a", "create b"}, script: []wop{"update b", "update b"}, prologue: true, bounds: b0})
 	add(cfg{name: "weak-kind/after-run", inputs: []inSpec{{tInt, "", w}}, when: "after-run", pre: pre, script: []wop{"update a", "update a"}, prologue: true, bounds: b0})
 	add(cfg{name: "weak-kind/update-inputs", inputs: []inSpec{{tInt, "", w}}, when: "update-inputs", pre: pre, script: []wop{"update a", "create b"}, prologue: true, bounds: b0})
 	add(cfg{name: "weak-kind/update-inputs/2controllers-concurrent", inputs: []inSpec{{tInt, "", w}}, nCtrl: 2, when: "update-inputs", gate: true, script: []wop{"create b"}, prologue: true, bounds: []int{0, 1}})
